@@ -36,6 +36,12 @@ func runC19(c *core.Ctx, r *core.Reporter) {
 	c19value(c, r)
 	c19symleaf(c, r, "C19.symleaf")
 	c19nilslot(c, r)
+	c19callhead(c, r)
+	c19callpkg(c, r)
+	c19snappkg(c, r)
+	c19spectype(c, r)
+	c19docescape(c, r)
+	c19valueform(c, r)
 }
 
 // c19pinned: what is saved does not depend on how the session happens to print.
